@@ -15,8 +15,8 @@ Ltac split_vars :=
           | |- context [?x && _] => is_var x; destruct x
           | H : context [?x && _] |- _ => is_var x; destruct x
           end).
-Ltac open_shape sh := destruct sh as [n ex ks kvn by0 ke ie wk];
-  unfold run, validate, check_shape, safeops_delta, vigil_delta in *; cbn [sh_name sh_exists sh_keys sh_kvnil sh_by0 sh_key_empty sh_id_empty sh_wkey_empty v_short v_getkeys] in *.
+Ltac open_shape sh := destruct sh as [n ex ks kvn by0 ke ie wk wl];
+  unfold run, validate, check_shape, safeops_delta, vigil_delta in *; cbn [sh_name sh_exists sh_keys sh_kvnil sh_by0 sh_key_empty sh_id_empty sh_wkey_empty sh_wkey_long v_short v_getkeys] in *.
 
 (* safeops: LockSystem is always matched by the deferred UnlockSystem - on a reject, on a panic in
    the validation, on a panic in the body and on every normal return. vigil: BeginVigil is matched by
@@ -57,10 +57,10 @@ Qed.
 (* the pinned commit: every handler that loads the name panics on a short name, Get on Keys = [] *)
 Definition short_shape : shape :=
   {| sh_name := NShort; sh_exists := false; sh_keys := KOk; sh_kvnil := false; sh_by0 := false;
-     sh_key_empty := false; sh_id_empty := false; sh_wkey_empty := false |}.
+     sh_key_empty := false; sh_id_empty := false; sh_wkey_empty := false; sh_wkey_long := false |}.
 Definition emptykeys_shape : shape :=
   {| sh_name := NOk; sh_exists := true; sh_keys := KEmptyList; sh_kvnil := false; sh_by0 := false;
-     sh_key_empty := false; sh_id_empty := false; sh_wkey_empty := false |}.
+     sh_key_empty := false; sh_id_empty := false; sh_wkey_empty := false; sh_wkey_long := false |}.
 Theorem well_defined_refuted_pinned :
   (forall h, In h all_handlers -> h <> HLock -> h <> HUnlock -> validate vcfg_pinned h short_shape = PanicAt) /\
   validate vcfg_pinned HGet emptykeys_shape = PanicAt /\
@@ -73,6 +73,15 @@ Qed.
 (* non-vacuity: a shape that is rejected, one that proceeds *)
 Example ex_reject : validate vcfg_now HGetAll short_shape = Reject EInvalid false.
 Proof. reflexivity. Qed.
+(* a key of 65536 bytes or more is rejected before the swamp is touched, by every writing handler *)
+Theorem long_key_rejected : forall h sh,
+  In h [HSet; HInc; HPush] -> sh_name sh = NOk -> sh_kvnil sh = false -> sh_by0 sh = false ->
+  sh_wkey_long sh = true -> validate vcfg_now h sh = Reject EInvalid false.
+Proof.
+  intros h sh Hin Hn Hk Hb Hl. destruct sh as [n ex ks kvn by0 ke ie wk wl]; cbn in Hn, Hk, Hb, Hl; subst.
+  destruct Hin as [<-|[<-|[<-|[]]]]; unfold validate, check_shape; cbn; destruct wk; reflexivity.
+Qed.
+
 Example ex_proceed : validate vcfg_now HGet
-  {| sh_name := NOk; sh_exists := true; sh_keys := KOk; sh_kvnil := false; sh_by0 := false; sh_key_empty := false; sh_id_empty := false; sh_wkey_empty := false |} = Proceed.
+  {| sh_name := NOk; sh_exists := true; sh_keys := KOk; sh_kvnil := false; sh_by0 := false; sh_key_empty := false; sh_id_empty := false; sh_wkey_empty := false; sh_wkey_long := false |} = Proceed.
 Proof. reflexivity. Qed.
